@@ -1,6 +1,7 @@
 """Case generator of the C09 end-to-end engine "chan09" on the channel simulator
 (harness/sim.c; case format in harness/SIM.md): histories of ares_send_dnsrec requests on
-1..8 servers with scripted answers / SERVFAIL / REFUSED / NOTIMP / silence (timeouts), clock
+1..8 servers, over UDP, UDP with truncated answers (TC fallback to TCP) or TCP only (usevc; the
+server may close or reset a connection with queries outstanding), with scripted answers / SERVFAIL / REFUSED / NOTIMP / silence (timeouts), clock
 advances around the retry delay, and server-list edits (add / remove / reorder / mix / replace / empty) between queries and
 while attempts are in flight: ares_set_servers_ports_csv, or - a fifth of the histories - a
 rewritten resolv.conf followed by ares_reinit (sim op writefile).  serverstatecb=1 and
@@ -79,7 +80,12 @@ def gen_case(rng, tier):
         srv = ["servers=0", "resolvconf=@/rc.conf", "writefile=@/rc.conf:" + resolvconf_hex(ids)]
     else:
         srv = ["servers=%d" % n]
-    cfg = ["seed=%d" % rng.randrange(1, 10 ** 6)] + srv + ["flags=noedns", "rotate=%d" % rng.choice([0, 0, 1, 1]),
+    # transport: UDP, UDP with truncated answers (TC -> the query moves to TCP), or TCP only (usevc);
+    # on TCP the server may close (eof) or reset the connection with queries outstanding.  TCP
+    # Fast Open (tfo=1) and a `run` after every op make the library write a query at the moment it
+    # chooses the server, so that the TX line shows the decision as on UDP
+    transport = rng.choice(["udp", "udp", "udp", "tc", "usevc", "usevc"])
+    cfg = ["seed=%d" % rng.randrange(1, 10 ** 6)] + srv + ["flags=noedns" + (",usevc" if transport == "usevc" else "")] + (["tfo=1"] if transport != "udp" else []) + ["rotate=%d" % rng.choice([0, 0, 1, 1]),
            "timeout=2000", "maxtimeout=5000", "qcachettl=0", "idseq=1", "serverstatecb=1", "qdump=1"]
     tries = rng.choice([None, 1, 1, 2, 3])
     if tries is not None:
@@ -96,6 +102,7 @@ def gen_case(rng, tier):
     ops = []
     tok = 0
     pending = 0
+    flush = ["run"] if transport != "udp" else []    # TCP: connect completes and writes go out
     for _ in range(nev):
         r = rng.random()
         if pending == 0:
@@ -107,25 +114,32 @@ def gen_case(rng, tier):
                     tok += 1
                     ops.append("send %d q%d.example IN A rd" % (tok, tok))
                     pending += 1
+                ops += flush
+                if transport == "tc" and rng.random() < 0.6:
+                    ops += ["rsp xl tc=1", "proc"] + flush     # truncated: retried over TCP
             elif r < 0.78:
                 ops.append("adv %d" % rng.choice([0, 1, 99, 100, 101, 4999, 5000, 5001, max(0, delay - 1), delay, delay + 1, 60000, 200000]))
                 ops.append("proct")
+                ops += flush
             else:
-                ops += do_edit(rng, ids, via_reinit)
+                ops += do_edit(rng, ids, via_reinit) + flush
         else:
             if r < p_edit_inflight:
-                ops += do_edit(rng, ids, via_reinit)
+                ops += do_edit(rng, ids, via_reinit) + flush
             elif r < p_edit_inflight + p_fail * (1 - p_edit_inflight):
-                k = rng.choice(["s", "r", "i", "x", "x", "s"])
+                k = rng.choice(["s", "r", "i", "x", "x", "s"] + (["eof", "eof", "eof", "reset"] if transport != "udp" else []))
                 if k == "x":
-                    ops += ["adv 60000", "proct"]
+                    ops += ["adv 60000", "proct"] + flush
                     pending = rng.choice([0, 1])
+                elif k in ("eof", "reset"):
+                    # the server closes (orderly) / resets the TCP connection the last query went out on
+                    ops += ["%s sxl" % k, "proc"] + flush
                 else:
-                    ops += ["rsp xl rcode=%s" % {"s": "SERVFAIL", "r": "REFUSED", "i": "NOTIMP"}[k], "proc"]
+                    ops += ["rsp xl rcode=%s" % {"s": "SERVFAIL", "r": "REFUSED", "i": "NOTIMP"}[k], "proc"] + flush
             else:
-                ops += ["rspall an=A:1.1.1.1" if rng.random() < 0.5 else "rsp xl an=A:1.1.1.1", "proc"]
+                ops += ["rspall an=A:1.1.1.1" if rng.random() < 0.5 else "rsp xl an=A:1.1.1.1", "proc"] + flush
                 pending -= 1
-    ops += ["rspall an=A:1.1.1.1", "proc", "rspall an=A:1.1.1.1", "proc", "servers"]
+    ops += ["rspall an=A:1.1.1.1", "proc"] + flush + ["rspall an=A:1.1.1.1", "proc"] + flush + ["servers"]
     return " ".join(cfg) + "|" + ";".join(ops)
 
 
